@@ -48,14 +48,18 @@ def build_space(spec, shapes=None, path=()):
                 return MultiDiscrete(spec[1:], dtype=(np.int8 if k == 1 else np.int16))
         return MultiDiscrete(spec[1:])
     if t in (3, 4):
-        shape = (shapes or {}).get(path, (len(spec) - 1,))
+        shape = tuple((shapes or {}).get(path, (len(spec) - 1,)))
+        # half of the leaves are the package's own Box (abmarl.tools.Box, a subclass with its own
+        # `contains`), the others gymnasium's: simulations use both
+        from abmarl.tools import Box as AbmBox
+        cls = AbmBox if (len(path) + len(spec)) % 2 == 0 else GymBox
         if t == 3:
             lo = np.array([b[0] for b in spec[1:]], dtype=int).reshape(shape)
             hi = np.array([b[1] for b in spec[1:]], dtype=int).reshape(shape)
-            return GymBox(lo, hi, dtype=int)
+            return cls(lo, hi, dtype=int)
         lo = np.array([b[0] / TICK for b in spec[1:]], dtype=float).reshape(shape)
         hi = np.array([b[1] / TICK for b in spec[1:]], dtype=float).reshape(shape)
-        return GymBox(lo, hi, dtype=float)
+        return cls(lo, hi, dtype=float)
     if t == 5:
         return Tuple(tuple(build_space(s, shapes, path + (i,)) for i, s in enumerate(spec[1:])))
     if t == 7:
@@ -274,6 +278,8 @@ def box_shapes(spec, rng, path=()):
             opts += [(2, n // 2), (n // 2, 2)]
         if n >= 1:
             opts += [(1, n), (n, 1)]
+        if n == 1:
+            opts += [(), ()]             # a scalar Box (shape ()) is a legal one-component leaf
         out[path] = rng.choice(opts)
     elif t in (5, 6):
         for i, s in enumerate(spec[1:]):
